@@ -123,7 +123,7 @@ def expect(rep, t, dev, d, kw, want, reply=(0, [], b""), sig="delivery", dtype_r
                 problems.append(f"returned {tag!r:.100}, reply data {exp_val!r:.60}")
         else:
             txt = SERVICE_STATUS.get(st)
-            named = tag.error and ((txt and txt in tag.error) or f"{st:02x}" in tag.error.lower())
+            named = tag.error and ((txt and txt in tag.error and sum(1 for v_ in SERVICE_STATUS.values() if v_ == txt) == 1) or f"{st:02x}" in tag.error.lower())
             if tag or not tag.error or not named:
                 problems.append(f"refused with status {st:#04x} but returned {tag!r:.120}")
     evs = [e for e in t.events[n_ev:] if e[0].startswith(("C14", "C09", "C11"))]
@@ -235,7 +235,7 @@ def run_history(rep, dpath, tier):
 
 
 def shards(tier, seed):
-    return [("services",), ("ids", 0), ("ids", 1), ("ids", 2), ("datalen",), ("replies",), ("routes",), ("helpers",), ("status",)] + [("history", i) for i in range(len(HIST_PATHS))] \
+    return [("services",), ("ids", 0), ("ids", 1), ("ids", 2), ("datalen",), ("replies",), ("routes",), ("helpers",), ("status",), ("longrun",)] + [("history", i) for i in range(len(HIST_PATHS))] \
         + [("helpers", "debuglog"), ("status", "debuglog"), ("history", 0, "debuglog"), ("routes", "debuglog")] \
         + [("services", "python-O"), ("status", "python-O"), ("routes", "python-O"), ("replies", "python-O")]
 
@@ -286,6 +286,24 @@ def run_shard(shard, tier, seed):
                     raw = wire_segment("class", cv) + wire_segment("instance", iv) + (wire_segment("attribute", a) if a is not None else b"")
                     expect(rep, t, dev, d, kw, want, reply=(0, [], b"ok"), sig=f"delivery/path/{tr}", rp=("ids", c, i, cf, if_, repr(a), tr), raw_path=raw)
         rep.sample({"class_instance_attribute": "boundary product", "transport": tr})
+    elif k == "longrun":
+        # a long-lived driver: 66 000 connected messages (the sequence counter comes round) and as many unconnected ones, every one delivered
+        w, t, dev, d = new_driver()
+        t.keep_cip = True
+        for tr in ("connected", "ucsend"):
+            kw = dict(service=0x0E, class_code=0x99, instance=1, attribute=1, **tkw(tr))
+            dev.reply = (0, [], b"\x07\x00")
+            bad = None
+            for i in range(66000):
+                t.cip_log.clear()
+                r = call(d.generic_message, **kw)
+                if not (r[0] == "ok" and bool(r[1]) and r[1].value == b"\x07\x00" and len(t.cip_log) == 1 and t.cip_log[0]["transport"] == tr):
+                    bad = (i, r)
+                    break
+            rep.case(("longrun", tr), outcome="ok" if bad is None else "bad", calls=66000)
+            if bad:
+                rep.violation(f"delivery/long-run/{tr}", f"message #{bad[0] + 1} of a run of identical generic messages on one driver ({tr}): {bad[1]!r:.140}; target saw {len(t.cip_log)} request(s)", {"case": ("longrun", tr)})
+        rep.sample({"long_run": 66000})
     elif k == "datalen":
         w, t, dev, d = new_driver()
         for n in list(range(0, 65)) + [499, 500, 3900]:
@@ -469,7 +487,7 @@ def run_shard(shard, tier, seed):
 def replay(r):
     case = r["case"]
     kind = case[0]
-    shard = {"svc": ("services",), "kw": ("services",), "ids": None, "len": ("datalen",), "raw": ("replies",), "uint": ("replies",), "string": ("replies",), "struct": ("replies",),
+    shard = {"svc": ("services",), "kw": ("services",), "longrun": ("longrun",), "ids": None, "len": ("datalen",), "raw": ("replies",), "uint": ("replies",), "string": ("replies",), "struct": ("replies",),
              "short": ("replies",), "status": ("status",)}.get(kind)
     if kind == "ids":
         shard = ("ids", TRANSPORTS.index(case[-1]))
